@@ -79,8 +79,51 @@ def gen_wr(rng):
             api = rng.choice(["wm", "wc", "nw", "pm"])
         pieces = split_pieces(rng, data) if api in ("nw", "ns") else [data]
         ops.append("%s:%d:%s" % (api, typ, "/".join(hx(p) for p in pieces)))
-    return "wr side=%s comp=%d level=%d ewc=%d wbuf=%d rchunk=%d ops=%s" % (
-        side, comp, level, ewc, wbuf, rng.choice([0, 0, 1, 3, 100]), ";".join(ops))
+    return "wr side=%s comp=%d level=%d ewc=%d wbuf=%d pool=%d rchunk=%d ops=%s" % (
+        side, comp, level, ewc, wbuf, int(rng.random() < 0.3), rng.choice([0, 0, 1, 3, 100]), ";".join(ops))
+
+
+def gen_pool(rng):
+    wbuf = rng.choice([4, 16, 100, 512, 0])
+    B = wbuf or 4096
+    msgs = []
+    for _ in range(rng.choice([1, 1, 2, 3])):
+        n = rng.choice([0, 1, B - 1, B, B + 1, 2 * B + 3, rng.randint(1, 200)])
+        msgs.append("%d:%s" % (rng.choice([1, 2]), hx(rnd_bytes(rng, min(n, 5000)))))
+    nb = rng.choice([1, B, B + 5, rng.randint(1, 200)])
+    return "pool side=%s comp=%d wbuf=%d a=%s b=%d:%s" % (
+        rng.choice("sc"), int(rng.random() < 0.3), wbuf, ";".join(msgs), rng.choice([1, 2]),
+        hx(bytes((i * 7 + 1) & 0xff for i in range(min(nb, 5000)))))
+
+
+def oracle_pool(op, out):
+    """Each peer receives exactly what its own endpoint wrote, although the endpoints share a write buffer pool
+    and B writes while A's socket writes are in flight."""
+    if out.startswith("PANIC") or out == "<missing>":
+        return "writer panicked", {"kind": "panic", "op": "pool"}
+    kv, okv = kvs(op), kvs(out)
+    if "ra" not in okv:
+        return "unparseable output " + out[:80], {"kind": "output"}
+    exp_a = ["m%s:%s" % tuple(m.split(":")) for m in kv["a"].split(";") if m] + ["eof"]
+    bt, bd = kv["b"].split(":")
+    exp_b = ["m%s:%s" % (bt, bd)] * int(okv.get("nb", "0")) + ["eof"]
+    if okv.get("berr") != "ok" or any(e != "ok" for e in okv.get("errs", "").split(",")):
+        return "a write failed: errs=%s berr=%s" % (okv.get("errs"), okv.get("berr")), {"kind": "pool-write-result"}
+    if okv["ra"].split(",") != exp_a:
+        return ("connection A's peer read %s, A wrote %s (B wrote into the shared buffer while A's write was in "
+                "flight)" % ([e[:30] for e in okv["ra"].split(",")], [e[:30] for e in exp_a]),
+                {"kind": "pool-crosstalk", "conn": "A"})
+    if okv["rb"].split(",") != exp_b:
+        return ("connection B's peer read %s, B wrote %s" % ([e[:30] for e in okv["rb"].split(",")][:4],
+                                                             [e[:30] for e in exp_b][:4]),
+                {"kind": "pool-crosstalk", "conn": "B"})
+    for side_wire in ("wa", "wb"):
+        peer = {"server": kv["side"] == "c", "comp": kv["comp"] == "1", "rl": 0, "dl": 0}
+        R = ref_decode(peer, unhex(okv[side_wire]), quirks=False, trust_zlib=True)
+        if R.events != (exp_a if side_wire == "wa" else exp_b):
+            return "the bytes of %s do not decode to what was written (rule %s)" % (side_wire, R.rule), \
+                {"kind": "pool-wire", "rule": R.rule}
+    return None
 
 
 def gen_tw(rng):
@@ -283,6 +326,8 @@ def oracle_mask(op, out):
 def oracle(op, out):
     if op.startswith("wr "):
         return oracle_wr(op, out)
+    if op.startswith("pool "):
+        return oracle_pool(op, out)
     if op.startswith("tw "):
         return oracle_tw(op, out)
     if op.startswith("mask "):
@@ -337,7 +382,8 @@ def run(ctx):
     else:
         corpus = [l.strip() for l in open(os.path.join(HERE, "corpus.ops")) if l.strip() and not l.startswith("#")]
         n = ctx.scale(2500, 60000)
-        ops = corpus + [gen_wr(ctx.rng) for _ in range(n)] + [gen_tw(ctx.rng) for _ in range(n // 3)] + \
+        ops = corpus + [gen_wr(ctx.rng) for _ in range(n)] + [gen_pool(ctx.rng) for _ in range(n // 5)] + \
+            [gen_tw(ctx.rng) for _ in range(n // 3)] + \
             [gen_mask(ctx.rng) for _ in range(n // 3)]
     ctx.log("generated", len(ops), "ops")
     impl = ctx.go_run(binary, TEST, ops)
@@ -355,7 +401,7 @@ def run(ctx):
             if "wire=" in out:
                 lean_ops.append(spec_line(op, out))
                 index.append((i, "spec"))
-        else:
+        elif not op.startswith("pool "):
             lean_ops.append(op)
             index.append((i, "same"))
     lean_out = ctx.lean_run(lean_ops)
@@ -408,6 +454,8 @@ def run(ctx):
                 sev = kvs(sp).get("ev", "-")
                 if sev != okv.get("rd"):
                     diff = "Lean specification decodes the wire to %s, the peer read %s" % (sev[:200], okv.get("rd", "")[:200])
+        elif kind == "pool":
+            pass  # oracle only: buffer ownership between connections is outside the Lean model
         elif "same" in lo:
             a = " ".join(w for w in out.split())
             b = " ".join(w for w in lo["same"].split() if not w.startswith("same="))
